@@ -2,7 +2,7 @@
    Only statements, each closed by [exact]; proofs live in Lemmas/.  The tables (address list,
    percentages, amounts, minted supply, activation heights) are regenerated from /repo on every run. *)
 From Model Require Import Examples.
-From Lemmas Require Import DbLemmas IssuanceLemmas BlockLemmas.
+From Lemmas Require Import DbLemmas IssuanceLemmas BlockLemmas IssuanceLedger.
 From Gen Require Import Consts.
 Open Scope Z_scope.
 
@@ -14,6 +14,24 @@ Theorem C15_dev_total_before_v202 : fold_right (fun d acc => dev_pre d + acc) 0 
 Proof. exact dev_total_pre. Qed.
 Example C15_amounts : PerBlockDevelopers = 2000 * 100000000 /\ SnapshotRate = 144.
 Proof. split; reflexivity. Qed.
+
+(* ... and on the LEDGER: a developer payout creates exactly that much PEG and nothing else (for every state) *)
+Theorem C15_dev_payout_on_the_ledger : forall c h ts s s',
+  fst (developers_payouts c h ts s) = Ok s' ->
+  supply s' PTickerPEG = supply s PTickerPEG +
+    (if c_V202EnhanceActivation c <=? h then PerBlockDevelopers * SnapshotRate else PerBlockDevelopers) /\
+  forall t, t <> PTickerPEG -> supply s' t = supply s t.
+Proof. exact developers_payouts_total. Qed.
+Print Assumptions C15_dev_payout_on_the_ledger.
+(* the 2.0.4 mint creates, for every asset, exactly what the regenerated mint list says, all of it on the mint address *)
+Theorem C15_mint_on_the_ledger : forall s s', mint_tokens s = Ok s' -> forall t, supply s' t = supply s t + listed t mint_list.
+Proof. exact mint_tokens_supply. Qed.
+Theorem C15_mint_only_on_the_mint_address : forall s s' a t,
+  mint_tokens s = Ok s' -> a <> GlobalMintAddress -> get_bal (bal s') a t = get_bal (bal s) a t.
+Proof. exact mint_tokens_only_mint_address. Qed.
+Print Assumptions C15_mint_on_the_ledger.
+Check developers_payouts_total_example.
+Check mint_tokens_supply_example.
 
 (* every listed amount is the binary64 product the code computes, recomputed with Coq's floats *)
 Theorem C15_amounts_are_the_percentages :
